@@ -211,7 +211,8 @@ static json run_event(const json& ev)
                 out["ret"] = parse_XTA(text.c_str(), &tb, newxta, (xta_part_t)part, xpath);
             } else if (builder == "doc") {
                 DocumentBuilder db(*doc);
-                parse_XTA(utap_builtin_declarations(), &db, true, S_DECLARATION, "");
+                if (!ev.value("nopreamble", false))
+                    parse_XTA(utap_builtin_declarations(), &db, true, S_DECLARATION, "");
                 out["ret"] = parse_XTA(text.c_str(), &db, newxta, (xta_part_t)part, xpath);
             } else {
                 ExpressionBuilder eb(*doc);
